@@ -64,6 +64,10 @@ structure Cfg where
 /-- `z is None` (default marker) resp. `z == end` (custom marker) -/
 def Cfg.isEnd (c : Cfg) (x : Item) : Bool := x == c.endm
 
+/-- the constructor's default (lines 822-826): `batch_wait_time=None` means 60 s if `batch_size > 1`
+    else 0; `ups` = clock units per second -/
+def defaultWait (bs ups : Nat) : Nat := if 1 < bs then 60 * ups else 0
+
 inductive Pc where
   | idle      -- in / before the first `get` (A)
   | coll      -- in / before a timed `get` (B), `n < batchsize`
